@@ -192,8 +192,11 @@ def predictor_runs(nruns, seed):
         random.seed(s)
         wrapped = (r % 2 == 0)
         puf, tuf = rng.randint(1, 5), rng.randint(1, 5)
+        # data sizes down to the hard-coded minimum predictor size (10) and below; predictor covering "all" the data by count
+        npts = rng.choice([60, 60, 25, 10, 8, 5])
+        ratio = rng.choice([0.2, 0.2, 0.5, 1.0])
         if wrapped:
-            x = np.linspace(-2, 2, 60).reshape(-1, 1)
+            x = np.linspace(-2, 2, npts).reshape(-1, 1)
             y = x ** 2 + 3.5 * x
             td = ExplicitTrainingData(x, y)
             cg = ComponentGenerator(1)
@@ -206,7 +209,7 @@ def predictor_runs(nruns, seed):
             full = lambda ind: ExplicitRegression(training_data=ExplicitTrainingData(x, y))(ind)  # noqa
             popsize = 12
         else:
-            data = np.linspace(0.1, 1, 80)
+            data = np.linspace(0.1, 1, npts + 20 if npts > 10 else npts)
             ea = MuPlusLambda(Evaluation(DistanceToAverage(data)), Tournament(2), SinglePointCrossover(),
                               SinglePointMutation(np.random.random), 0.2, 0.8, 16)
             gen = MultipleValueChromosomeGenerator(np.random.random, 6)
@@ -214,7 +217,7 @@ def predictor_runs(nruns, seed):
             popsize = 16
         hof = HallOfFame(4)
         isl = FitnessPredictorIsland(ea, gen, popsize, hall_of_fame=hof, predictor_population_size=4,
-                                     trainer_population_size=4, predictor_size_ratio=0.2,
+                                     trainer_population_size=4, predictor_size_ratio=ratio,
                                      predictor_computation_ratio=0.3, trainer_update_frequency=tuf,
                                      predictor_update_frequency=puf)
         ngen = rng.randint(4, 9)
@@ -239,7 +242,7 @@ def predictor_runs(nruns, seed):
                     break
             out["generations"] += 1
         out["runs"] += 1
-        out["samples"].append(dict(seed=s, wrapped=wrapped, predictor_update=puf, trainer_update=tuf, generations=ngen,
+        out["samples"].append(dict(seed=s, wrapped=wrapped, data_points=npts, predictor_size_ratio=ratio, predictor_update=puf, trainer_update=tuf, generations=ngen,
                                    best=float(isl.get_best_individual().fitness)))
     return out
 
